@@ -254,12 +254,44 @@ func (r *Runner) absRule(ru string) []string {
 	for i := range f {
 		if a, ok := r.N.Abs[f[i]]; ok {
 			f[i] = a
+			continue
+		}
+		// near misses (see nearMiss): a chain name without its first / last character
+		for a, x := range r.N.Real {
+			if f[i] == x[1:] {
+				f[i] = a + "<"
+			} else if f[i] == x[:len(x)-1] {
+				f[i] = a + ">"
+			}
 		}
 	}
 	if len(f) == 3 {
 		f[2] = r.absPort(f[2])
+		for _, a := range []string{"mock", "nft", "mt"} {
+			if x := r.port(a); f[2] == x[1:] {
+				f[2] = a + "<"
+			} else if f[2] == x[:len(x)-1] {
+				f[2] = a + ">"
+			}
+		}
 	}
 	return f
+}
+
+// nearMiss concretises the rule fields "X<" and "X>": the real spelling of X without its first / last character, a
+// different identifier that only a sloppy comparison (prefix, suffix, substring, unanchored pattern) takes for X.
+func nearMiss(g string, conv func(string) (string, bool)) (string, bool) {
+	if len(g) < 2 || (g[len(g)-1] != '<' && g[len(g)-1] != '>') {
+		return "", false
+	}
+	x, ok := conv(g[:len(g)-1])
+	if !ok || len(x) < 2 {
+		return "", false
+	}
+	if g[len(g)-1] == '<' {
+		return x[1:], true
+	}
+	return x[:len(x)-1], true
 }
 
 func (r *Runner) realRule(f []string) string {
@@ -267,10 +299,16 @@ func (r *Runner) realRule(f []string) string {
 	for i := range g {
 		if x, ok := r.N.Real[g[i]]; ok {
 			g[i] = x
+		} else if x, ok := nearMiss(g[i], func(a string) (string, bool) { x, ok := r.N.Real[a]; return x, ok }); ok && i < 2 {
+			g[i] = x
 		}
 	}
 	if len(g) == 3 {
-		g[2] = r.port(g[2])
+		if x, ok := nearMiss(g[2], func(a string) (string, bool) { x := r.port(a); return x, x != a || a == "mock" }); ok {
+			g[2] = x
+		} else {
+			g[2] = r.port(g[2])
+		}
 	}
 	return strings.Join(g, ",")
 }
